@@ -3,6 +3,7 @@ package main
 import (
 	"fmt"
 	"go/types"
+	"regexp"
 	"sort"
 	"strings"
 
@@ -44,6 +45,7 @@ const (
 	AField
 	AElem
 	AGlobal
+	ASubField // field of an opaque struct value held in a local cell
 )
 
 // Addr is a structured pointer.
@@ -257,13 +259,17 @@ func intBits(t types.Type) int {
 }
 
 // typeKey is a stable printable name for a type, used in region and sort names.
+var anyWord = regexp.MustCompile(`\bany\b`)
+
 func typeKey(t types.Type) string {
-	return types.TypeString(t, func(p *types.Package) string {
+	s := types.TypeString(t, func(p *types.Package) string {
 		if p.Path() == "github.com/joeycumines/go-bigbuff" {
 			return ""
 		}
 		return p.Name()
 	})
+	// `any` and `interface{}` are the same type
+	return anyWord.ReplaceAllString(s, "interface{}")
 }
 
 // sortOf maps a Go type to the sort of its scalar representation ("" if compound).
